@@ -169,7 +169,9 @@ class Verifier(Interp):
         for m in c.modifies:
             tgt = self._eval_in(m, vars, func.globs)
             from .loops import havoc_value
+            from .models import check_frame
 
+            check_frame(self, tgt)  # a callee that writes into its argument writes into the caller's INPUT if that is what it was handed
             havoc_value(self, tgt)
         if c.trusted:
             self.assumptions.add("assumed-contract:" + c.key)
